@@ -1,16 +1,16 @@
 package main
 
 import (
-	"sync"
 	"fmt"
-	"regexp"
 	"go/ast"
 	"go/token"
 	"go/types"
 	"os"
 	"path/filepath"
+	"regexp"
 	"sort"
 	"strings"
+	"sync"
 
 	"golang.org/x/tools/go/packages"
 	"golang.org/x/tools/go/ssa"
@@ -18,25 +18,25 @@ import (
 )
 
 type Engine struct {
-	repo      string
-	verifDir  string
-	tags      string
-	prog      *ssa.Program
-	pkgs      []*packages.Package
-	allPkgs   map[string]*types.Package
-	funcs     map[string]*ssa.Function // contract key -> function
-	contracts map[string]*FuncContract
-	specFuncs map[string]specFuncSig
-	specLibs  map[string][]string // "<lib>.<theory>" -> SMT-LIB lines
-	specLibRaw map[string][]string // the same with (lemma ...) forms unexpanded
-	lemmaAxioms map[string]string  // axiom text of a lemma -> its name
-	lemmaLibs  map[string]string   // pseudo function "lemmas.<lib>" -> library key
-	lemmaProps map[string][]string
-	slots     map[string]int64
-	typeIDs   map[string]int64
-	funcIDs   map[string]int64
-	globIDs   map[string]int64
-	fset      *token.FileSet
+	repo        string
+	verifDir    string
+	tags        string
+	prog        *ssa.Program
+	pkgs        []*packages.Package
+	allPkgs     map[string]*types.Package
+	funcs       map[string]*ssa.Function // contract key -> function
+	contracts   map[string]*FuncContract
+	specFuncs   map[string]specFuncSig
+	specLibs    map[string][]string // "<lib>.<theory>" -> SMT-LIB lines
+	specLibRaw  map[string][]string // the same with (lemma ...) forms unexpanded
+	lemmaAxioms map[string]string   // axiom text of a lemma -> its name
+	lemmaLibs   map[string]string   // pseudo function "lemmas.<lib>" -> library key
+	lemmaProps  map[string][]string
+	slots       map[string]int64
+	typeIDs     map[string]int64
+	funcIDs     map[string]int64
+	globIDs     map[string]int64
+	fset        *token.FileSet
 }
 
 func NewEngine(repo, verifDir, tags string) (*Engine, error) {
@@ -489,11 +489,34 @@ func (e *Engine) translateFunc(key string, preCells []*Cell) (res *funcResult) {
 			panic(r)
 		}
 	}()
+	var renames map[string]string
+	if len(fc.Locals) > 0 {
+		cur := declaredNames(fn)
+		if len(cur) == len(fc.Locals) {
+			cnt := func(l []string, n string) int {
+				c := 0
+				for _, x := range l {
+					if x == n {
+						c++
+					}
+				}
+				return c
+			}
+			for i, old := range fc.Locals {
+				if nw := cur[i]; nw != old && cnt(fc.Locals, old) == 1 && cnt(cur, nw) == 1 && cnt(fc.Locals, nw) == 0 {
+					if renames == nil {
+						renames = map[string]string{}
+					}
+					renames[old] = nw
+				}
+			}
+		}
+	}
 	th := Theory{bv: fc.Theory == "bv", named32: fc.Theory == "u32", lemmas: map[string]bool{}}
 	for _, n := range fc.UseLemmas {
 		th.lemmas[n] = true
 	}
-	t := &fnTrans{eng: e, th: th, fc: fc, fn: fn, globals: map[string]*Cell{}, cellTyp: map[string]types.Type{},
+	t := &fnTrans{renames: renames, eng: e, th: th, fc: fc, fn: fn, globals: map[string]*Cell{}, cellTyp: map[string]types.Type{},
 		oldSnap: map[string]*Cell{}, callSeq: map[string]int{}, assumptions: map[string]bool{}, usedSpecFuncs: map[string]bool{}, usedAsserts: map[string]bool{}, constGlobals: map[string]int64{}, outside: map[string]int{}, preGlobals: preCells}
 	t.proc = &Proc{Name: key, Props: fc.Props}
 	pre := t.proc.NewBlock("pre")
@@ -587,11 +610,22 @@ func (e *Engine) translateFunc(key string, preCells []*Cell) (res *funcResult) {
 		mem, lo, hi := f.specRange(w.E, envEntry)
 		t.writeRanges = append(t.writeRanges, writeRange{mem, t.newTemp("wlo", lo), t.newTemp("whi", hi)})
 	}
+	for _, a := range fc.Asserts {
+		t.hasStmtSites = t.hasStmtSites || strings.HasPrefix(a.Site, "stmt ") || strings.HasPrefix(a.Site, "after stmt ")
+	}
+	for s := range fc.GhostAt {
+		t.hasStmtSites = t.hasStmtSites || strings.HasPrefix(s, "stmt ") || strings.HasPrefix(s, "after stmt ")
+	}
 	body := t.proc.NewBlock("body")
 	t.cur.Goto(body)
 	f.translateBody(body)
 
 	var staleAsserts []Clause
+	for s := range fc.GhostAt {
+		if !t.usedSites[s] {
+			staleAsserts = append(staleAsserts, Clause{Label: "ghost-at " + s, Site: s})
+		}
+	}
 	for _, a := range fc.Asserts {
 		if !t.usedAsserts[a.Label] {
 			// the code changed under the contract: what still binds is checked, the clause that no
@@ -615,6 +649,7 @@ func (e *Engine) translateFunc(key string, preCells []*Cell) (res *funcResult) {
 	env := f.bodyEnv(false)
 	for i, h := range heads {
 		ls := &LoopSpec{Ordinal: i + 1, Props: fc.Props}
+		env.loopOrd = i + 1
 		if lc, ok := fc.Loops[i+1]; ok {
 			for _, inv := range lc.Invs {
 				ls.Invs = append(ls.Invs, NamedExpr{inv.Label, f.specBool(inv.E, env), propsOr(inv.Props, fc.Props)})
@@ -740,6 +775,8 @@ func (e *Engine) translateFunc(key string, preCells []*Cell) (res *funcResult) {
 	}
 	t.proc.LemmaLine = e.lemmaAxioms
 	t.proc.LemmaFor = fc.LemmaFor
+	t.proc.SliceOut = fc.SliceOut
+	t.proc.FactFor = fc.FactFor
 	obls, err := GenVCs(t.proc, prel)
 	if err != nil {
 		res.Err = err.Error()
@@ -891,6 +928,79 @@ func loopHeadsInSourceOrder(fn *ssa.Function) []*ssa.BasicBlock {
 			return pi < pj
 		}
 		return out[i].Index < out[j].Index
+	})
+	return out
+}
+
+// declaredNames: the names a function declares, in source order: receiver, parameters, named
+// results, then every local variable (closures' own declarations excluded). A contract records this
+// list (`locals ...`); when the code's list has the same length and differs only in names, the
+// contract's identifiers are renamed by position, so that renaming a local is not an alarm.
+func declaredNames(fn *ssa.Function) []string {
+	syn := fn.Syntax()
+	if syn == nil {
+		return nil
+	}
+	var typ *ast.FuncType
+	var body *ast.BlockStmt
+	var recv *ast.FieldList
+	switch s := syn.(type) {
+	case *ast.FuncDecl:
+		typ, body, recv = s.Type, s.Body, s.Recv
+	case *ast.FuncLit:
+		typ, body = s.Type, s.Body
+	}
+	if body == nil {
+		return nil
+	}
+	var out []string
+	fields := func(fl *ast.FieldList) {
+		if fl == nil {
+			return
+		}
+		for _, f := range fl.List {
+			for _, n := range f.Names {
+				out = append(out, n.Name)
+			}
+		}
+	}
+	fields(recv)
+	fields(typ.Params)
+	fields(typ.Results)
+	ast.Inspect(body, func(x ast.Node) bool {
+		switch s := x.(type) {
+		case *ast.FuncLit:
+			return false
+		case *ast.AssignStmt:
+			if s.Tok == token.DEFINE {
+				for _, l := range s.Lhs {
+					if id, ok := l.(*ast.Ident); ok && id.Name != "_" && id.Obj != nil && id.Obj.Pos() == id.Pos() {
+						out = append(out, id.Name)
+					}
+				}
+			}
+		case *ast.ValueSpec:
+			for _, n := range s.Names {
+				if n.Name != "_" {
+					out = append(out, n.Name)
+				}
+			}
+		case *ast.RangeStmt:
+			if s.Tok == token.DEFINE {
+				for _, l := range []ast.Expr{s.Key, s.Value} {
+					if id, ok := l.(*ast.Ident); ok && id.Name != "_" {
+						out = append(out, id.Name)
+					}
+				}
+			}
+		case *ast.TypeSwitchStmt:
+			if a, ok := s.Assign.(*ast.AssignStmt); ok && len(a.Lhs) == 1 {
+				if id, ok := a.Lhs[0].(*ast.Ident); ok {
+					out = append(out, id.Name)
+				}
+			}
+		}
+		return true
 	})
 	return out
 }
